@@ -90,3 +90,7 @@ def run(ctx):
     ctx.assumptions += ["the instruction-set levels are exercised on this host's CPU (all levels up to AVX2+FMA are available here)",
                         "tolerance of the multi-term class: 16 eps x max(1,|inputs|)^degree (256 eps for the inverse family); lowp approximations 2^-9 of the result scale",
                         "min / max / clamp with a NaN operand and lowp approximations on zero divisors, non-finite or extreme-magnitude operands are outside the documented domain"]
+
+
+def replay(ctx, path):
+    return c15.replay_pairs(ctx, path, "simd")
